@@ -495,6 +495,21 @@ pub fn run(ctx: &Ctx, _args: &Args) -> i32 {
                 q.sampling_override = *rng.pick(overrides);
                 probes.push(q);
             }
+            // header values that JSON has to escape (quoted strings as in ETags, backslashes, control characters),
+            // repeated lines of one header, an empty value
+            for q in probes.iter_mut() {
+                if rng.chance(1, 4) {
+                    let (n, v) = *rng.pick(&[
+                        ("If-None-Match", "\"33a64df5\""),
+                        ("X-Path", "C:\\dir\\file"),
+                        ("X-Ctl", "a\tb\u{1}c"),
+                        ("Cookie", "k=\"v\"; j=\\"),
+                        ("X-A", "Foo"),
+                        ("X-Empty", ""),
+                    ]);
+                    q.headers.push((n.to_string(), v.to_string()));
+                }
+            }
             for q in probes {
                 record(&Case::Request { world: world.clone(), request: q }, report);
             }
